@@ -489,6 +489,27 @@ func goid() int64 {
 	return id
 }
 
+// schedDone is closed when the last recorded hand-over has been consumed: from then on the symbolic
+// run had only threads that were blocked or finished, so natively every thread still parked by
+// the baton scheduler (a pump waiting in its select, a goroutine the rest of the harness starts)
+// runs freely - e.g. a harness's own clean-up can then stop the pumps and wait for them.
+var schedDone = make(chan struct{})
+
+// (schedMu held)
+func schedAdvance() {
+	schedK++
+	if schedK == len(rf.Schedule) {
+		close(schedDone)
+	}
+}
+
+func schedWait(t *nthread) {
+	select {
+	case <-t.wake:
+	case <-schedDone:
+	}
+}
+
 func schedInit() {
 	if len(rf.Schedule) == 0 {
 		return
@@ -520,7 +541,7 @@ func spawnScheduled(name string, f func()) {
 		schedMu.Lock()
 		goidName[goid()] = name
 		schedMu.Unlock()
-		<-t.wake // runs only when the schedule hands it the baton
+		schedWait(t) // runs only when the schedule hands it the baton (or the schedule is over)
 		f()
 		threadExit(t)
 	}()
@@ -550,9 +571,12 @@ func handover(from *nthread, to string, park bool) {
 		return
 	}
 	t.visits = map[string]int{}
-	t.wake <- struct{}{}
+	select {
+	case t.wake <- struct{}{}:
+	default: // (already released: the schedule is over)
+	}
 	if park {
-		<-from.wake
+		schedWait(from)
 	}
 }
 
@@ -561,7 +585,7 @@ func threadExit(t *nthread) {
 	var e *schedEntry
 	if schedK < len(rf.Schedule) && rf.Schedule[schedK].From == t.name && rf.Schedule[schedK].Pos == "exit" {
 		e = &rf.Schedule[schedK]
-		schedK++
+		schedAdvance()
 	}
 	schedMu.Unlock()
 	if e != nil {
@@ -599,7 +623,7 @@ func schedPoint(pos string, isJoin bool) {
 			c := &rf.Schedule[schedK]
 			if c.From == t.name && ((c.Pos == pos && (c.N == t.visits[pos] || isJoin)) || (c.Pos == pos+"/wait" && (c.Arr == 0 || c.Arr == t.visits[pos]))) {
 				e = c
-				schedK++
+				schedAdvance()
 			}
 		}
 		schedMu.Unlock()
@@ -633,7 +657,7 @@ func After(pos string) {
 	if t == nil || !t.noBaton {
 		return
 	}
-	<-t.wake
+	schedWait(t)
 	t.noBaton = false
 }
 
